@@ -255,6 +255,20 @@ def run(facts, rep, tier, ctx):
         run_world(facts, rep, wa, {"sites": 10, "observers": 9})
     else:
         rep.fail("R08.4", "async_vfs", "async world present", "async_vfs module not found in the all-features build")
+    # R08.11 a copy-up between two sub-directories of ONE in-memory filesystem takes the backend's native two-path route: it has to
+    # leave the source (the lower layer's entry) in place on every path, failing ones included — Table M two-path rows and the
+    # "a failed primitive leaves the map unchanged" rows, both worlds
+    from . import c01 as _c01t
+    from ..report import Report as _Rp8
+    for w11 in (ws, wa):
+        if not w11.present():
+            continue
+        scr11 = _Rp8("t")
+        found11, n11, mm11 = _c01t.table_m(facts, scr11, "M", "Mk", self_ty=w11.memory, trait=w11.trait.rsplit("::", 1)[1], ops_filter=_c01t.TWO_PATH_OPS)
+        _c01t.failed_primitive_unchanged(facts, scr11, "F", mm11)
+        for o in scr11.obligations:
+            if o["rule"] in ("M", "F"):
+                rep.ob(("A/" if w11.asyncw else "") + "R08.11", o["fn"], o["key"].split("|")[2], o["ok"], o["detail"], o["loc"])
     # R08.10 a layer may itself be an adapter: what the overlay asks of an altroot layer is what reaches the filesystem behind it
     # (a copy_file that is really a move removes the lower layer's file during a copy-up)
     from . import c07 as _c07
